@@ -253,12 +253,28 @@ Definition coins_spec : list (nat * nat) := flat_map (fun t => tx_coins_spec t 0
    (confirmed at that height / in the mempool / otherwise conflicted or inactive), and every transaction in the
    chain or mempool that pays the wallet or spends one of its outputs is in the wallet. *)
 Definition relevant (t : wtx) : bool := existsb o_mine (t_outs t) || existsb out_mine (t_ins t).
+(* conflicted by the chain: an input (of the transaction or of an absent ancestor) is spent by another transaction
+   that is confirmed in the active chain *)
+Fixpoint chain_conflicted (f : nat) (t : wtx) : bool :=
+  match f with
+  | O => false
+  | S f' =>
+    existsb (fun op =>
+      existsb (fun t' => negb (Nat.eqb (t_id t') (t_id t)) && spends op t' &&
+                         match status_of (t_id t') with StConfirmed _ => true | _ => false end) table ||
+      match find_tx (fst op) with
+      | Some p => match status_of (t_id p) with StAbsent => chain_conflicted f' p | _ => false end
+      | None => false
+      end) (t_ins t)
+  end.
+(* the wallet's state is the true status; a transaction that is neither in the chain nor in the mempool must be
+   marked conflicted when the chain conflicts with it (it may be inactive or abandoned otherwise) *)
 Definition state_matches (e : wentry) : bool :=
   match status_of (t_id (e_tx e)), e_state e with
   | StConfirmed h, SConfirmed h' => h =? h'
   | StMempool, SMempool => true
   | StAbsent, SConflicted _ => true
-  | StAbsent, SInactive _ => true
+  | StAbsent, SInactive a => a || negb (chain_conflicted (S (length table)) (e_tx e))
   | _, _ => false
   end.
 Definition in_wallet (W : list wentry) (t : wtx) : bool := existsb (fun e => Nat.eqb (t_id (e_tx e)) (t_id t)) W.
